@@ -6,19 +6,26 @@ Mutation testing (scratch worktree /tmp/ixs-mut, VERIF_REPO, quick tier, seed 1;
     rangeact-ge        RangeActivity fast path `end > lastKey` -> `>=`            VIOLATION at a RangeAct event
     combine-oldoff     Combine(update,update) returns the NEW offset as oldoff   VIOLATION at a Fill event (olds)
     upddel-keeps-old   Combine(update,delete) keeps the old offset in the delete VIOLATION at a Content event
-  round 2 ("input buffers left unchanged"; scratch worktree /tmp/wt-seedtest-c11b, seeds 1-6; all keep
-  go test ./db19/index/... green -- single threaded tests never look at a merge input again):
+  round 2 ("input buffers left unchanged"; scratch worktrees /tmp/wt-seedtest-c11b, /tmp/wt-c11b-mut, quick
+  tier; all three keep go test ./db19/index/... green -- the package tests only Check() a merge input again):
     adopt-passed-chunk (seeded/C11-adopt-passed-chunk-r2) outputChunk adopts a small passed-through chunk
-                       as m.buf when the buffer is empty: flushbuf's buf[:0] + outputSlot then write into
-                       the INPUT chunk's array. MISSED by the first version of this check (inputs were only
-                       compared right after their own merge and no generated input had a large / small /
-                       large chunk run followed by slot output). Now VIOLATION at a Recheck event (input lost
-                       keys / got foreign keys), in 1-4 of the 10 chain and 0-4 of the 10 shaped scenarios
-                       of every seed tried; IxBufStore.tla DevAdoptChunk is the same deviation in the model
-    flush-noclone      flushbuf appends m.buf itself to out (no slc.Clone) and re-uses it: the OUTPUT's
-                       chunk is overwritten by later slots                      VIOLATION at a Content event
-    combine-in-input   outputSlot combines into the input slot (s1 := &in[i][0] style aliasing) -- see
-                       the report of round 2 for the exact mutant texts
+                       as m.buf when the buffer is empty (`else if len(m.buf) == 0 { m.buf = c }`):
+                       flushbuf's buf[:0] + outputSlot then write into the INPUT chunk's array. MISSED by the
+                       first version of this check (no generated merge had a large / small / large run of
+                       passed chunks followed by slot output, inputs were only re-read right after their
+                       own merge). Now VIOLATION at a Recheck event (the input lost keys / got foreign
+                       keys) in 6-12 of the 30 chain + shaped scenarios of each of the seeds 1-6;
+                       IxBufStore.tla DevAdoptChunk is the same deviation in the model
+    combine-into-passed-chunk  passthru: when the chunk's first key equals the last buffered key, Combine
+                       the buffered slot into in[i][0] (the input's slot), drop it from buf and pass the
+                       chunk through                                     VIOLATION at a Recheck event (seed 1)
+    adopt-when-cap-small  outputChunk: `else if len(m.buf) == 0 && cap(m.buf) < len(c) { m.buf = c }` (only
+                       when the merge started with 1-8 slots and nothing grew the buffer since)
+                       first driver of round 2: seed 1 missed (detected in 2 of 8 seeds); after the
+                       "uniform" shaped scenarios (tiny first chunk, alternating large / small, quiet start)
+                       changed input in 9 of 10 seeds (1-10), thorough 5-6 scenarios per run (seeds 1-3)
+    killed by the package tests (a.Check() after Merge): pop-slot-by-shift (copy(in[i], in[i][1:])),
+    pop-chunk-by-shift (copy(m.in[i], m.in[i][1:]))
   killed by the package's own tests already (so not usable as evidence for this check; all of them are
   also rejected by the trace spec when the tests are ignored -- not re-run for the record):
     passthru-prev (pass-through although the chunk updates the previous output slot), passthru-ge
